@@ -267,6 +267,10 @@ def showOutcome (c : HttpCase) (agent : AgentConfig) (req : Request) (res : Stri
   let (heads, _) := followRedirects agent 6 req c.behaviour
   s!"p={c.port} {res} ;; N{heads.length} {String.intercalate "|" (heads.map hexOf)} ;; B{showSteps steps}"
 
+/-- stand-in for the system resolver: only `localhost` is known (to the IPv4 loopback address) -/
+def lookupMirror (d : Bytes) (port : Nat) : Option (List SocketAddr) :=
+  if d == asciiBytes "localhost" then some [⟨.v4 127 0 0 1, port⟩] else none
+
 /-- `http-plan …` (see `harness/src/http.rs`) → `p=<port> <result> ;; N<connections> <request heads> ;; B<timed-out steps>` -/
 def entryHttpPlan (args : List String) : String :=
   match parseHttpCase args with
@@ -281,7 +285,16 @@ def entryHttpPlan (args : List String) : String :=
       | (none, .err k, _) => failed k
       | (none, _, _) => s!"p={c.port} CRASH ;; N0  ;; B-"
     else
-      match Http.new idnaMirror c.ua ⟨c.ip, c.port⟩ c.timeouts ⟨.http, c.host, c.headers⟩ with
+      let built : Res Client :=
+        if c.call == "fromurl" then
+          -- `from_url("http://<host or the address>:<port>/ignored?x=1#frag")`: the URL parsed, then `fromUrl`
+          let hostText := c.host.getD (ipHostText c.ip)
+          match parseUrl idnaMirror .http (asciiBytes "//" ++ hostText ++ [58] ++ natDec c.port ++ asciiBytes "/ignored?x=1#frag") with
+          | .ok url => Http.fromUrl idnaMirror c.ua lookupMirror false url c.timeouts (if c.headers.isEmpty then none else some c.headers)
+          | .err k => .err k
+          | .crash => .crash
+        else Http.new idnaMirror c.ua ⟨c.ip, c.port⟩ c.timeouts ⟨.http, c.host, c.headers⟩
+      match built with
       | .err k => failed k
       | .crash => s!"p={c.port} CRASH ;; N0  ;; B-"
       | .ok client =>
